@@ -20,6 +20,10 @@ func main() {
 		os.Exit(2)
 	}
 	id := os.Args[1]
+	if id == "debug-hist" {
+		checks.DebugHist(os.Args[2:])
+		return
+	}
 	c, ok := checks.All[id]
 	if !ok {
 		fmt.Fprintf(os.Stderr, "unknown check %s\n", id)
